@@ -1,15 +1,20 @@
-(* C16 -- Template engine: per-element blocks expand once per element, in model order.   PARTIAL.
-   FULL STATEMENT (not proved): for every template of a block grammar and every table/interface,
-     generate m dict [] (render16 tmpl) = ref_expand tmpl (model of the table)
-   where ref_expand is the flat_map over the element list of the block body with name tags replaced by the case variant,
-   NUM/ALPH by index/letter, transitions lacking guard/action/target dropping the line or using the alternative text.
-   Missing: the segment-wise reading of str.replace on rendered body lines (so that `second_lines` equals the declarative
-   substitution), the equality of tt_model with the first-appearance-order specification, and the nested transition blocks.
-   These parts are tied to the real code by differential execution and observed against the independent reference expander
-   of harness/props/c16.py on every run.  Proved below: the structure around them. *)
+(* C16 -- Template engine: per-element blocks expand once per element, in model order.
+   Reference: Spec/RefExpand16.v (ref_block, ref16, elements_of); grammar: Model/EngineDomain16.v (in_grammar16, block_wf).
+   FULL: a per-element block of every kind (state, event, action, guard, struct, protocol struct, message, action
+   signature) equals the reference block, for every element list and every body of the grammar (C16_block_is_ref,
+   C16_sig_block_is_ref); PairExpander.Expand of the block's stage replaces exactly the block (C16_block_stage); the
+   engine's table model yields the first-appearance lists of the table (C16_model_first_appearance); str.replace of a tag
+   acts segment-wise (C16_replace_segmentwise); text outside blocks, letter counter.
+   STILL PARTIAL -- FULL STATEMENT not proved:  forall m dict t, in_grammar16 t = true -> wf_elements16 t (elements_of_model m)
+   = true -> engine16 m dict t = Some (ref16 (elements_of_model m) t)   (the composition of the 15 stages over a template with
+   several blocks of several kinds, followed by the user-tag / FOR / write phases on the tag-free result), and the nested
+   per-state / per-event / per-transition blocks with their alternative text (modelled in Model/EngineSM.v, tied by
+   differential execution, observed against the Python reference only).  The check compares the real output with ref16 on
+   every generated template of in_grammar16. *)
 From Coq Require Import String List Bool Arith.
 From KV Require Import Lib.Str Lib.StrOps Lib.ODict Gen.Tags Gen.Pipeline Model.Engine Model.EngineSM Model.EngineDomain Spec.RefExpand
-                       Proofs.EnginePipe Proofs.EngineC16.
+                       Model.EngineDomain16 Spec.RefExpand16 Lib.TableDef Model.TTable
+                       Proofs.EnginePipe Proofs.EngineC16 Proofs.EngineRepl Proofs.EngineBlock Proofs.EngineTT.
 Import ListNotations.
 Open Scope string_scope.
 Open Scope list_scope.
@@ -57,8 +62,69 @@ Theorem C16_letter : forall i, alphabet_to_string (alpha_at i) = letter i.
 Proof. exact alpha_letter. Qed.
 Print Assumptions C16_letter.
 
+(* str.replace("<<<k>>>", v) on a line rendered from segments (literal pieces without '<' '>', tags) replaces exactly the
+   segments that are the tag <<<k>>> and leaves every other segment as it is. *)
+Theorem C16_replace_segmentwise : forall k v l, no_lg k = true -> has_char EQ k = false -> line_ok l = true ->
+  replace_all (pat k) v (render_line l) = render_line (map (put k v) l).
+Proof. exact replace_all_render. Qed.
+Print Assumptions C16_replace_segmentwise.
+
+(* A block of any per-element kind: for EVERY element list and every body of the grammar, the engine's expansion function
+   (innerexpand_secondfiltering / _PROTO) returns the reference block: the body once per element, in list order, every name
+   tag replaced by the element's name in its case variant, NUM / ALPH by index and letter. *)
+Theorem C16_block_is_ref : forall k items body,
+  forallb (body_line_ok (keys_of k)) body = true -> block_wf (table_of_kind k) items body = true ->
+  inner_of_kind k items (map render_line body) None = Some (ref_block (table_of_kind k) items body).
+Proof. exact inner_block. Qed.
+Print Assumptions C16_block_is_ref.
+
+Theorem C16_sig_block_is_ref : forall sigs body,
+  forallb (body_line_ok sig_keys) body = true -> block_wf sig_table (map snd sigs) body = true ->
+  inner_actionsigs sigs (map render_line body) None = Some (ref_block sig_table (map snd sigs) body).
+Proof. exact sig_block_is_ref. Qed.
+Print Assumptions C16_sig_block_is_ref.
+
+(* PairExpander.Expand with the stage tags of the block's kind (the stage is in the list read from the source, with the
+   inner function used here: stage_in_source): text before the block is kept, the block is replaced by the reference block,
+   the expander continues on the rest from its initial state (so several blocks of a kind, in any position, compose). *)
+Theorem C16_block_stage : forall k items pre body rest,
+  forallb (not_be (fst (stage_tags k)) (snd (stage_tags k))) pre = true ->
+  forallb (not_be (fst (stage_tags k)) (snd (stage_tags k))) (map render_line body) = true ->
+  forallb (body_line_ok (keys_of k)) body = true -> block_wf (table_of_kind k) items body = true ->
+  pair_expand (fst (stage_tags k)) (snd (stage_tags k)) (inner_of_kind k items) (pre ++ render_item16 (Block k body) ++ rest)
+  = option_map (fun t => pre ++ ref_block (table_of_kind k) items body ++ t)
+               (pair_go (fst (stage_tags k)) (snd (stage_tags k)) (inner_of_kind k items) false [] None rest).
+Proof. exact block_stage. Qed.
+Print Assumptions C16_block_stage.
+
+Theorem C16_stage_in_source : forall m k,
+  existsb (fun st => let '(kind, b, e, inner, coll) := st in
+                     String.eqb kind "Pair" && String.eqb b (fst (stage_tags k)) && String.eqb e (snd (stage_tags k))
+                     && match inner_of m inner coll with Some _ => true | None => false end)
+          (second_stages ++ second_stages_iface) = true.
+Proof. exact stage_in_source. Qed.
+Print Assumptions C16_stage_in_source.
+
+(* Model order: the lists the engine's CTransitionTableModel builds by dictionary insertion (states: start then next state
+   of each row; events, actions, guards; signatures keyed by the (action, event) pair; the generator's events = table events
+   followed by the interface's structs not among them) are the first-appearance lists of the table, for every table. *)
+Theorem C16_model_first_appearance : forall tt structs protos msgs m,
+  tt_model tt structs protos msgs = Some m ->
+  elements_of_model m = elements_of (table_of tt) structs protos msgs.
+Proof. exact model_elements. Qed.
+Print Assumptions C16_model_first_appearance.
+
+Example C16_block_is_ref_nonvacuous :
+  let body := [[Lit "  "; Tag "NUM" None; Tag "ALPH" None; Lit " "; Tag "STATENAME" None; Lit " "; Tag "stateName" None; Lit " "; Tag "STATE_NAME" None]] in
+  forallb (body_line_ok (keys_of KState)) body = true
+  /\ block_wf (table_of_kind KState) ["StateStop"; "StateOpen"] body = true
+  /\ ref_block (table_of_kind KState) ["StateStop"; "StateOpen"] body
+     = [("  0a StateStop stateStop state_stop" ++ nl_str)%string; ("  1b StateOpen stateOpen state_open" ++ nl_str)%string].
+Proof. repeat split; vm_compute; reflexivity. Qed.
+Print Assumptions C16_block_is_ref_nonvacuous.
+
 (* non-vacuity: the CD player table of the README; a template with a per-state block and text around it *)
-Definition cd_rows : list row :=
+Definition cd_rows : list EngineSM.row :=
   [["StateStop"; "EventOpen"; "StateOpen"; "OnOpenDrive"; "None"]; ["StateStop"; "EventPlay"; "StatePlay"; "OnPlayTrack"; "GuardCDInside"];
    ["StateOpen"; "EventOpen"; "StateStop"; "OnCloseDrive"; "None"]; ["StatePlay"; "EventEndOfTrack"; "None"; "OnPlayNextTrack"; "GuardCDHasMoreTracks"]].
 Definition cd_tmpl : list string :=
